@@ -8,6 +8,8 @@
    SPACES                                                          -> all code points with py_isspace
    QINFO <str id>                                                  -> snapopt [phase]
    STSTATUS <str c> <str w> tbl                                    -> response
+   RSTATUS <str c> <str w> snapopt(1st read: render job) snapopt(2nd read: makezip job) tbl
+                                                                   -> response ASKED <k> <str id>*k   (status_req, ModelReq.v)
    event  : P <timeout> <ttl|-> | U | I <k> (<str> v)*k | F v v | K | M | W *)
 open C19_model
 let rec pos_of_int i = if i = 1 then XH else if i land 1 = 1 then XI (pos_of_int (i lsr 1)) else XO (pos_of_int (i lsr 1))
@@ -78,6 +80,12 @@ let () =
        | "STATUS" ->
          let wn = rd_str () in let r = rd_snapopt () in let m = rd_snapopt () in let tbl = rd_tbl () in
          wr_resp (status (nfkd_of tbl) r m wn)
+       | "RSTATUS" ->
+         let c = rd_str () in let wn = rd_str () in let r = rd_snapopt () in let m = rd_snapopt () in let tbl = rd_tbl () in
+         (match exec_reads (nfkd_of tbl) c wn r m with
+          | None -> failwith "request wants more than two reads"
+          | Some (resp, tr) ->
+            wr_resp resp; w "ASKED"; w (string_of_int (List.length tr)); List.iter (fun (id, _) -> wr_str id) tr)
        | "CD" ->
          let f = rd_str () in let e = rd_str () in let tbl = rd_tbl () in
          (match content_disposition (nfkd_of tbl) f e with
